@@ -322,27 +322,31 @@ Section Dispatch.
   Variable acc : cls -> list nat -> bool.
   Variable sites : list site.
 
-  Lemma dispatch_inv : forall fuel top codec k s x t,
+  Lemma dispatch_inv : forall fuel top codec k s x inp t,
     wf (classes x) -> reg_sound sites x -> key_site sites k = Some s ->
-    classes (fst (dispatch sites fuel top codec k s x t)) = classes x
-    /\ reg_sound sites (fst (dispatch sites fuel top codec k s x t)).
+    classes (fst (dispatch sites fuel top codec k s x inp t)) = classes x
+    /\ reg_sound sites (fst (dispatch sites fuel top codec k s x inp t)).
   Proof.
-    induction fuel as [|f IH]; intros top codec k s x t W RS K; cbn [dispatch]; [split; [reflexivity | exact RS]|].
+    induction fuel as [|f IH]; intros top codec k s x inp t W RS K; cbn [dispatch]; [split; [reflexivity | exact RS]|].
     destruct (negb (site_ok s (length (classes x)))) eqn:OK; [split; [reflexivity | exact RS]|].
     apply negb_false_iff in OK.
     assert (ENTER: forall x1 c, classes x1 = classes x -> reg_sound sites x1 ->
       let r := match config_site sites c with
                | None => (x1, OInst c)
                | Some (j, sj) => if s_field sj
-                                 then dispatch sites f top codec (if codec then (top, S c) else (j, 0)) sj x1 t
+                                 then match assoc (s_fid sj) inp with
+                                      | None => (x1, OMissing)
+                                      | Some t' => dispatch sites f top codec (if codec then (top, S c) else (j, 0)) sj x1 inp t'
+                                      end
                                  else (x1, ONotFound)
                end in
       classes (fst r) = classes x /\ reg_sound sites (fst r)).
     { intros x1 c E1 S1. destruct (config_site sites c) as [[j sj]|] eqn:C; cbn; [|split; assumption].
       destruct (s_field sj); [|cbn; split; assumption].
+      destruct (assoc (s_fid sj) inp) as [t'|]; [|cbn; split; assumption].
       assert (K': key_site sites (if codec then (top, S c) else (j, 0)) = Some sj).
       { destruct codec; unfold key_site; cbn; [rewrite C; reflexivity | eapply config_site_nth; exact C]. }
-      destruct (IH top codec _ sj x1 t (eq_ind_r wf W E1) S1 K') as [E2 S2].
+      destruct (IH top codec _ sj x1 inp t' (eq_ind_r wf W E1) S1 K') as [E2 S2].
       split; [congruence | exact S2]. }
     destruct (reg_get t (get_reg k (regs x))) as [c|] eqn:G.
     - apply ENTER; [reflexivity | exact RS].
@@ -362,15 +366,15 @@ Section Dispatch.
   Lemma reg_sound_step x o : wf (classes x) -> reg_sound sites x ->
     classes (fst (step acc sites x o)) = def_step (classes x) o /\ reg_sound sites (fst (step acc sites x o)).
   Proof.
-    intros W RS. destruct o as [ps tg tu rq | i t present]; cbn [step].
+    intros W RS. destruct o as [ps tg tu rq | i inp present]; cbn [step].
     - split; [reflexivity|]. intros k s t c K Hin. cbn in *. apply carries_mono. eapply RS; eassumption.
     - destruct (nth_error sites i) as [s|] eqn:Es; [|split; [reflexivity | exact RS]].
       destruct (negb (site_ok s (length (classes x)))) eqn:OK; [split; [reflexivity | exact RS]|].
       destruct (s_field s); [|split; [reflexivity | exact RS]].
-      destruct t as [t|]; [|split; [reflexivity | exact RS]].
+      destruct (assoc (s_fid s) inp) as [t|]; [|split; [reflexivity | exact RS]].
       assert (K: key_site sites (i, 0) = Some s) by exact Es.
-      pose proof (dispatch_inv (S (S (length (classes x)))) i (s_codec s) (i, 0) s x t W RS K) as [E1 S1].
-      destruct (dispatch sites (S (S (length (classes x)))) i (s_codec s) (i, 0) s x t) as [x' o]. cbn in *.
+      pose proof (dispatch_inv (S (S (length (classes x)))) i (s_codec s) (i, 0) s x inp t W RS K) as [E1 S1].
+      destruct (dispatch sites (S (S (length (classes x)))) i (s_codec s) (i, 0) s x inp t) as [x' o]. cbn in *.
       split; assumption.
   Qed.
 
@@ -421,11 +425,11 @@ Qed.
 Definition plain_carriers (sites: list site) (cl: list cls) (s: site) (t: tag) : Prop :=
   forall c, carries cl s c t -> config_site sites c = None.
 
-Lemma dispatch_correct sites f top codec k s x t :
+Lemma dispatch_correct sites f top codec k s x inp t :
   wf (classes x) -> reg_sound sites x -> key_site sites k = Some s ->
   site_ok s (length (classes x)) = true ->
   tag_unique (classes x) s t -> plain_carriers sites (classes x) s t ->
-  field_spec (classes x) s t (snd (dispatch sites (S f) top codec k s x t)).
+  field_spec (classes x) s t (snd (dispatch sites (S f) top codec k s x inp t)).
 Proof.
   intros W RS K OK U P. cbn [dispatch]. rewrite OK. cbn [negb].
   destruct (reg_get t (get_reg k (regs x))) as [c|] eqn:G.
@@ -446,21 +450,22 @@ Proof.
       * discriminate.
 Qed.
 
-Theorem decode_field_correct acc sites pre i s t present :
+Theorem decode_field_correct acc sites pre i s inp t present :
   nth_error sites i = Some s -> s_field s = true -> site_ok s (length (defs pre)) = true ->
+  assoc (s_fid s) inp = Some t ->
   tag_unique (defs pre) s t -> plain_carriers sites (defs pre) s t ->
-  exists o, snd (step acc sites (final acc sites pre) (Decode i (Some t) present)) = Some o
+  exists o, snd (step acc sites (final acc sites pre) (Decode i inp present)) = Some o
             /\ field_spec (defs pre) s t o.
 Proof.
-  intros Hs Hf OK U P.
+  intros Hs Hf OK HT U P.
   pose proof (registry_invariant acc sites pre) as RS.
   pose proof (wf_defs pre) as W.
   pose proof (final_classes acc sites pre) as CL.
   set (x := final acc sites pre) in *.
   rewrite <- CL in W, OK, U, P |- *.
-  cbn [step]. rewrite Hs. rewrite OK. cbn [negb]. rewrite Hf.
-  pose proof (dispatch_correct sites (S (length (classes x))) i (s_codec s) (i, 0) s x t W RS Hs OK U P) as F.
-  destruct (dispatch sites (S (S (length (classes x)))) i (s_codec s) (i, 0) s x t) as [x' o].
+  cbn [step]. rewrite Hs. rewrite OK. cbn [negb]. rewrite Hf. rewrite HT.
+  pose proof (dispatch_correct sites (S (length (classes x))) i (s_codec s) (i, 0) s x inp t W RS Hs OK U P) as F.
+  destruct (dispatch sites (S (S (length (classes x)))) i (s_codec s) (i, 0) s x inp t) as [x' o].
   exists o. split; [reflexivity | exact F].
 Qed.
 
@@ -473,56 +478,70 @@ Proof.
 Qed.
 
 (* same classes, same site settings, same tag => same answer, whatever was decoded or created before *)
-Theorem history_independent acc sites1 sites2 pre1 pre2 i1 i2 s t present1 present2 :
+Theorem history_independent acc sites1 sites2 pre1 pre2 i1 i2 s inp1 inp2 t present1 present2 :
   nth_error sites1 i1 = Some s -> nth_error sites2 i2 = Some s -> s_field s = true ->
+  assoc (s_fid s) inp1 = Some t -> assoc (s_fid s) inp2 = Some t ->
   defs pre1 = defs pre2 -> site_ok s (length (defs pre1)) = true -> tag_unique (defs pre1) s t ->
   plain_carriers sites1 (defs pre1) s t -> plain_carriers sites2 (defs pre1) s t ->
-  snd (step acc sites1 (final acc sites1 pre1) (Decode i1 (Some t) present1))
-  = snd (step acc sites2 (final acc sites2 pre2) (Decode i2 (Some t) present2)).
+  snd (step acc sites1 (final acc sites1 pre1) (Decode i1 inp1 present1))
+  = snd (step acc sites2 (final acc sites2 pre2) (Decode i2 inp2 present2)).
 Proof.
-  intros H1 H2 Hf E OK U P1 P2.
-  destruct (decode_field_correct acc sites1 pre1 i1 s t present1 H1 Hf OK U P1) as [o1 [E1 S1]].
+  intros H1 H2 Hf T1 T2 E OK U P1 P2.
+  destruct (decode_field_correct acc sites1 pre1 i1 s inp1 t present1 H1 Hf OK T1 U P1) as [o1 [E1 S1]].
   rewrite E in OK, U, P2.
-  destruct (decode_field_correct acc sites2 pre2 i2 s t present2 H2 Hf OK U P2) as [o2 [E2 S2]].
+  destruct (decode_field_correct acc sites2 pre2 i2 s inp2 t present2 H2 Hf OK T2 U P2) as [o2 [E2 S2]].
   rewrite E in S1. rewrite E1, E2. f_equal. eapply field_spec_functional; eassumption.
 Qed.
 
-(* a key that is present - whatever its value, in any state, without any hypothesis - is never reported missing *)
-Lemma dispatch_not_missing sites : forall fuel top codec k s x t,
-  snd (dispatch sites fuel top codec k s x t) <> OMissing.
+(* the keys of all field dispatchers are present in the input (whatever their values) *)
+Definition keys_present (sites: list site) (inp: list (nat * tag)) : Prop :=
+  forall j sj, nth_error sites j = Some sj -> s_field sj = true -> assoc (s_fid sj) inp <> None.
+
+(* MissingDiscriminator is reported only for a key that is really absent: in any state, for any tag values,
+   through any depth of nested dispatchers, without any other hypothesis *)
+Lemma dispatch_not_missing sites inp : keys_present sites inp -> forall fuel top codec k s x t,
+  snd (dispatch sites fuel top codec k s x inp t) <> OMissing.
 Proof.
-  induction fuel as [|f IH]; intros top codec k s x t; cbn [dispatch]; [discriminate|].
+  intros KP. induction fuel as [|f IH]; intros top codec k s x t; cbn [dispatch]; [discriminate|].
   destruct (negb (site_ok s (length (classes x)))); [discriminate|].
   assert (ENTER: forall x1 c,
     snd (match config_site sites c with
          | None => (x1, OInst c)
          | Some (j, sj) => if s_field sj
-                           then dispatch sites f top codec (if codec then (top, S c) else (j, 0)) sj x1 t
+                           then match assoc (s_fid sj) inp with
+                                | None => (x1, OMissing)
+                                | Some t' => dispatch sites f top codec (if codec then (top, S c) else (j, 0)) sj x1 inp t'
+                                end
                            else (x1, ONotFound)
          end) <> OMissing).
-  { intros x1 c. destruct (config_site sites c) as [[j sj]|]; [|discriminate].
-    destruct (s_field sj); [apply IH | discriminate]. }
+  { intros x1 c. destruct (config_site sites c) as [[j sj]|] eqn:C; [|discriminate].
+    destruct (s_field sj) eqn:F; [|discriminate].
+    pose proof (KP j sj (config_site_nth _ _ _ _ C) F) as NN.
+    destruct (assoc (s_fid sj) inp) as [t'|]; [apply IH | congruence]. }
   destruct (reg_get t (get_reg k (regs x))); [apply ENTER|].
   destruct (reg_get t (refill (classes x) s (get_reg k (regs x)))); [apply ENTER | discriminate].
 Qed.
 
-Theorem present_key_not_missing acc sites x i t present :
-  snd (step acc sites x (Decode i (Some t) present)) <> Some OMissing.
+Theorem present_keys_not_missing acc sites x i inp present :
+  keys_present sites inp -> snd (step acc sites x (Decode i inp present)) <> Some OMissing.
 Proof.
-  cbn [step]. destruct (nth_error sites i) as [s|]; [|discriminate].
+  intros KP. cbn [step]. destruct (nth_error sites i) as [s|] eqn:Es; [|discriminate].
   destruct (negb (site_ok s (length (classes x)))); [discriminate|].
-  destruct (s_field s).
+  destruct (s_field s) eqn:F.
   2:{ cbn [snd]. unfold decode_nofield. destruct (find_map _ _); discriminate. }
-  pose proof (dispatch_not_missing sites (S (S (length (classes x)))) i (s_codec s) (i, 0) s x t) as H.
-  destruct (dispatch sites (S (S (length (classes x)))) i (s_codec s) (i, 0) s x t) as [x' o].
+  pose proof (KP i s Es F) as NN.
+  destruct (assoc (s_fid s) inp) as [t|]; [|congruence].
+  pose proof (dispatch_not_missing sites inp KP (S (S (length (classes x)))) i (s_codec s) (i, 0) s x t) as H.
+  destruct (dispatch sites (S (S (length (classes x)))) i (s_codec s) (i, 0) s x inp t) as [x' o].
   cbn [snd] in *. intros E. apply H. congruence.
 Qed.
 
-Theorem missing_tag acc sites pre i s present :
+Theorem missing_tag acc sites pre i s inp present :
   nth_error sites i = Some s -> s_field s = true -> site_ok s (length (defs pre)) = true ->
-  step acc sites (final acc sites pre) (Decode i None present) = (final acc sites pre, Some OMissing).
+  assoc (s_fid s) inp = None ->
+  step acc sites (final acc sites pre) (Decode i inp present) = (final acc sites pre, Some OMissing).
 Proof.
-  intros Hs Hf OK. cbn. rewrite Hs. rewrite final_classes. rewrite OK. cbn. rewrite Hf. reflexivity.
+  intros Hs Hf OK HT. cbn [step]. rewrite Hs. rewrite final_classes. rewrite OK. cbn [negb]. rewrite Hf. rewrite HT. reflexivity.
 Qed.
 
 (* no eligible class is itself a class-level dispatcher *)
